@@ -1,9 +1,260 @@
 package exec
 
-import "verif/plan"
+import (
+	"bufio"
+	"context"
+	"fmt"
+	"io"
+	"net"
+	"sort"
+	"strconv"
+	"strings"
+	"sync"
+	"time"
 
-type subscription struct{}
+	"verif/plan"
+	"verif/sim/cluster"
+)
+
+// subscription is one subscriber connection speaking raw RESP (C14).
+type subscription struct {
+	c      net.Conn
+	mu     sync.Mutex
+	msgs   []string // kind|pattern|channel|payload|stamp
+	acks   chan []string
+	closed bool
+	rerr   string
+}
+
+func readRESP(br *bufio.Reader) (interface{}, error) {
+	line, err := br.ReadString('\n')
+	if err != nil {
+		return nil, err
+	}
+	if len(line) < 3 {
+		return nil, fmt.Errorf("short line %q", line)
+	}
+	body := line[1 : len(line)-2]
+	switch line[0] {
+	case '+':
+		return body, nil
+	case '-':
+		return fmt.Errorf("%s", body), nil
+	case ':':
+		n, _ := strconv.ParseInt(body, 10, 64)
+		return n, nil
+	case '$':
+		n, _ := strconv.Atoi(body)
+		if n < 0 {
+			return nil, nil
+		}
+		buf := make([]byte, n+2)
+		if _, err := io.ReadFull(br, buf); err != nil {
+			return nil, err
+		}
+		return string(buf[:n]), nil
+	case '*':
+		n, _ := strconv.Atoi(body)
+		if n < 0 {
+			return nil, nil
+		}
+		arr := make([]interface{}, 0, n)
+		for i := 0; i < n; i++ {
+			v, err := readRESP(br)
+			if err != nil {
+				return nil, err
+			}
+			arr = append(arr, v)
+		}
+		return arr, nil
+	}
+	return nil, fmt.Errorf("bad type byte %q", line[0])
+}
+
+func (r *Run) subReader(s *subscription) {
+	br := bufio.NewReader(s.c)
+	for {
+		v, err := readRESP(br)
+		if err != nil {
+			s.mu.Lock()
+			s.closed, s.rerr = true, err.Error()
+			s.mu.Unlock()
+			close(s.acks)
+			return
+		}
+		if e, isErr := v.(error); isErr {
+			select {
+			case s.acks <- []string{"error", e.Error()}:
+			default:
+			}
+			continue
+		}
+		arr, ok := v.([]interface{})
+		if !ok || len(arr) == 0 {
+			s.mu.Lock()
+			s.msgs = append(s.msgs, fmt.Sprintf("other||%v||%d", v, r.K.Stamp()))
+			s.mu.Unlock()
+			continue
+		}
+		strs := make([]string, len(arr))
+		for i, a := range arr {
+			strs[i] = fmt.Sprint(a)
+		}
+		switch strs[0] {
+		case "message":
+			if len(strs) == 3 {
+				s.mu.Lock()
+				s.msgs = append(s.msgs, fmt.Sprintf("message||%s|%s|%d", strs[1], strs[2], r.K.Stamp()))
+				s.mu.Unlock()
+			}
+		case "pmessage":
+			if len(strs) == 4 {
+				s.mu.Lock()
+				s.msgs = append(s.msgs, fmt.Sprintf("pmessage|%s|%s|%s|%d", strs[1], strs[2], strs[3], r.K.Stamp()))
+				s.mu.Unlock()
+			}
+		case "subscribe", "psubscribe", "unsubscribe", "punsubscribe", "pong":
+			select {
+			case s.acks <- strs:
+			default:
+			}
+		}
+	}
+}
 
 func (r *Run) doPubSub(c *client, sc *plan.Script, idx int, op *plan.Op, rec *plan.Rec) {
-	rec.Err = "other:pubsub not implemented"
+	ctx := context.Background()
+	switch op.K {
+	case "ps.pub":
+		rdb := r.ctlRaw(op.M)
+		n, err := rdb.Do(ctx, "PUBLISH", op.Key, op.Val).Int64()
+		rec.Err, rec.Int = Classify(err), n
+		return
+	case "ps.channels", "ps.numsub", "ps.numpat":
+		rdb := r.ctlRaw(op.M)
+		var args []any
+		switch op.K {
+		case "ps.channels":
+			args = []any{"PUBSUB", "channels"}
+			if op.Pattern != "" {
+				args = append(args, op.Pattern)
+			}
+		case "ps.numsub":
+			args = []any{"PUBSUB", "numsub"}
+			for _, k := range op.Keys {
+				args = append(args, k)
+			}
+		case "ps.numpat":
+			args = []any{"PUBSUB", "numpat"}
+		}
+		res, err := rdb.Do(ctx, args...).Result()
+		rec.Err = Classify(err)
+		switch v := res.(type) {
+		case int64:
+			rec.Int = v
+		case []interface{}:
+			for _, x := range v {
+				rec.Keys = append(rec.Keys, fmt.Sprint(x))
+			}
+			if op.K == "ps.channels" {
+				sort.Strings(rec.Keys)
+			}
+		}
+		return
+	}
+	// subscriber-side ops use the connection of this script
+	s := c.subs["conn"]
+	if s == nil {
+		if op.K == "ps.collect" || op.K == "ps.close" {
+			return
+		}
+		node := clientNodeBase + 300 + sc.ID
+		conn, err := r.N.Dial(node, r.N.Incarnation(node), cluster.AddrOfIdx(sc.M))
+		if err != nil {
+			rec.Err = "dial:" + err.Error()
+			return
+		}
+		s = &subscription{c: conn, acks: make(chan []string, 1024)}
+		c.subs["conn"] = s
+		go r.subReader(s)
+	}
+	switch op.K {
+	case "ps.sub", "ps.psub", "ps.unsub", "ps.punsub":
+		name := map[string]string{"ps.sub": "SUBSCRIBE", "ps.psub": "PSUBSCRIBE", "ps.unsub": "UNSUBSCRIBE", "ps.punsub": "PUNSUBSCRIBE"}[op.K]
+		args := append([]string{name}, op.Keys...)
+		if _, err := s.c.Write(respArray(args)); err != nil {
+			rec.Err = "write:" + err.Error()
+			return
+		}
+		want := len(op.Keys)
+		if want == 0 {
+			want = 1
+		}
+		t := time.NewTimer(5 * time.Second)
+		defer t.Stop()
+		for got := 0; got < want; {
+			select {
+			case a, ok := <-s.acks:
+				if !ok {
+					rec.Err = "closed"
+					return
+				}
+				if a[0] == "error" {
+					rec.Err = "other:" + a[1]
+					return
+				}
+				if strings.HasSuffix(strings.ToLower(name), a[0]) {
+					got++
+					rec.Keys = append(rec.Keys, strings.Join(a, "|"))
+				}
+			case <-t.C:
+				rec.Err = "timeout"
+				return
+			}
+		}
+	case "ps.ping":
+		s.c.Write(respArray([]string{"PING", "sync"}))
+		t := time.NewTimer(5 * time.Second)
+		defer t.Stop()
+		for {
+			select {
+			case a, ok := <-s.acks:
+				if !ok {
+					rec.Err = "closed"
+					return
+				}
+				if a[0] == "pong" {
+					return
+				}
+			case <-t.C:
+				rec.Err = "timeout"
+				return
+			}
+		}
+	case "ps.close":
+		// read everything the member had already sent (same stream, so a pong is behind it)
+		s.c.Write(respArray([]string{"PING", "drain"}))
+		t := time.NewTimer(2 * time.Second)
+	drain:
+		for {
+			select {
+			case a, ok := <-s.acks:
+				if !ok || a[0] == "pong" {
+					break drain
+				}
+			case <-t.C:
+				break drain
+			}
+		}
+		t.Stop()
+		s.c.Close()
+	case "ps.collect":
+		s.mu.Lock()
+		rec.Keys = append([]string(nil), s.msgs...)
+		rec.Info = s.rerr
+		s.mu.Unlock()
+		rec.N = len(rec.Keys)
+	default:
+		rec.Err = "other:unknown pubsub op " + op.K
+	}
 }
